@@ -55,11 +55,33 @@ def is_subclass(c: str, base: str, parent=None) -> bool:
 ZIP_READ = {"BadZipFile", "zlib.error", "EOFError", "UnicodeDecodeError", "NotImplementedError", "RuntimeError"}
 
 
-def external_raises(call: ast.Call) -> set | None:
+def _zip_member_names(func) -> set:
+    """Local names bound to an open member of a zip archive: ``m = zipf.open(name)`` / ``with zipf.open(name) as m``."""
+    out = set()
+    if func is None:
+        return out
+    for n in ast.walk(func):
+        src = tgt = None
+        if isinstance(n, ast.Assign) and len(n.targets) == 1 and isinstance(n.targets[0], ast.Name):
+            src, tgt = n.value, n.targets[0].id
+        elif isinstance(n, ast.withitem) and isinstance(n.optional_vars, ast.Name):
+            src, tgt = n.context_expr, n.optional_vars.id
+        if isinstance(src, ast.Call) and isinstance(src.func, ast.Attribute) and src.func.attr == "open" and "zip" in U(src.func.value).lower():
+            out.add(tgt)
+    return out
+
+
+def external_raises(call: ast.Call, func=None) -> set | None:
     """Exceptions a known external callee may raise on hostile data; None = unknown callee."""
     name = last_attr(call.func)
     full = dotted(call.func) or ""
     recv = U(call.func.value) if isinstance(call.func, ast.Attribute) else ""
+    if name == "open" and "zip" in recv.lower():
+        # ZipFile.open checks the local header: BadZipFile, NotImplementedError (compression), RuntimeError (password), KeyError (no member)
+        return {"BadZipFile", "NotImplementedError", "RuntimeError", "KeyError"}
+    if name in ("read", "readline", "readlines", "read1", "readinto") and recv in _zip_member_names(func):
+        # data errors surface lazily while the member is read
+        return set(ZIP_READ)
     if name == "ZipFile":
         # reading the central directory: bad signatures/sizes (BadZipFile), "zip file version N" (NotImplementedError),
         # undecodable member names (UnicodeDecodeError)
@@ -369,7 +391,7 @@ class EscapeAnalysis:
         if isinstance(n, ast.Call):
             name = last_attr(n.func)
             full = dotted(n.func) or ""
-            ext = external_raises(n)
+            ext = external_raises(n, func)
             if ext is not None:
                 for c in ext:
                     out.add((c, U(n)[:80]))
@@ -497,7 +519,7 @@ class EscapeAnalysis:
         for c, d in self.site_raises(n, func):
             out.add((c, d, self.repo.loc(n)))
         if isinstance(n, ast.Call):
-            ext = external_raises(n)
+            ext = external_raises(n, func)
             if ext is None:
                 callees = self.resolve(n, func)
                 if callees:
